@@ -4,6 +4,7 @@ import (
 	"go/token"
 	"go/types"
 	"strings"
+	"sync"
 
 	"golang.org/x/tools/go/ssa"
 
@@ -184,7 +185,34 @@ func builtinCall(in ssa.Instruction, name string) *ssa.CallCommon {
 }
 
 // relName renders a function for messages.
-func relName(fn *ssa.Function) string { return ir.FnName(fn) }
+func relName(fn *ssa.Function) string {
+	claimFn(fn)
+	return ir.FnName(fn)
+}
+
+// claimed records, per loaded program, the functions some rule has resolved as a role (a helper it knows by what it
+// does). The source normaliser leaves calls of these functions alone and inlines the other private helpers.
+var claimed sync.Map // *ssa.Program -> *sync.Map (FnName -> true)
+
+func claimFn(fn *ssa.Function) {
+	if fn == nil || fn.Prog == nil {
+		return
+	}
+	m, _ := claimed.LoadOrStore(fn.Prog, &sync.Map{})
+	m.(*sync.Map).Store(ir.FnName(fn), true)
+}
+
+// ClaimedFns returns the short names of the functions claimed as roles while checking prog.
+func ClaimedFns(prog *ssa.Program) map[string]bool {
+	res := map[string]bool{}
+	if m, ok := claimed.Load(prog); ok {
+		m.(*sync.Map).Range(func(k, _ any) bool { res[k.(string)] = true; return true })
+	}
+	return res
+}
+
+// ForgetClaims drops the record of prog.
+func ForgetClaims(prog *ssa.Program) { claimed.Delete(prog) }
 
 // methodsWhere returns the source methods of named type t that satisfy pred.
 func (c *Ctx) methodsWhere(t *types.Named, pred func(*ssa.Function) bool) []*ssa.Function {
